@@ -34,6 +34,56 @@ def clipStepXor (d : Rat) : ClipStep → Rat
   | .clippedGroup s f => (s * f) * (1 - d) + d * (1 - s * f)
 def clipFactorXor (nested : Rat) (steps : List ClipStep) : Rat := nested * (1 - steps.foldl clipStepXor 1)
 
+/-! ### clip children with clip paths, nested
+
+`clip_group` renders a clipped child aside — on a *transparent* buffer to which that child's own
+children are ADDED (source-over) — clips it and composites it onto the buffer it was called for.
+That buffer is the clip buffer itself (opaque, children CLEAR it: composite with `DestinationOut`) or,
+when the clipped child sits inside another clipped child, the transparent buffer of that one
+(composite with `SourceOver`; a fix after 5e91a6d, which used `DestinationOut` there too and lost such
+children). -/
+
+/-- a child of a `clipPath`: a shape with coverage `c`, or a group (a `use`, a shape with its own
+    `clip-path`) with the factor of its own clip path, if any -/
+inductive ClipNode
+  | plain (c : Rat)
+  | group (clip : Option Rat) (children : List ClipNode)
+deriving Repr
+
+mutual
+/-- drawing onto a transparent buffer (`SourceOver` context): alpha `a ↦ a'`; `nestedOver = false` is the
+    code between 5e91a6d and the later fix -/
+def drawOver (nestedOver : Bool) : ClipNode → Rat → Rat
+  | .plain c, a => a + c * (1 - a)
+  | .group none cs, a => drawOverList nestedOver cs a
+  | .group (some f) cs, a =>
+    let s := drawOverList nestedOver cs 0
+    if nestedOver then a + (s * f) * (1 - a) else a * (1 - s * f)
+def drawOverList (nestedOver : Bool) : List ClipNode → Rat → Rat
+  | [], a => a
+  | n :: ns, a => drawOverList nestedOver ns (drawOver nestedOver n a)
+end
+
+mutual
+/-- drawing onto the clip buffer (`Clear` context): `d ↦ d'` -/
+def drawClear (nestedOver : Bool) : ClipNode → Rat → Rat
+  | .plain c, d => d * (1 - c)
+  | .group none cs, d => drawClearList nestedOver cs d
+  | .group (some f) cs, d => d * (1 - drawOverList nestedOver cs 0 * f)
+def drawClearList (nestedOver : Bool) : List ClipNode → Rat → Rat
+  | [], d => d
+  | n :: ns, d => drawClearList nestedOver ns (drawClear nestedOver n d)
+end
+
+/-- the factor the target's alpha is multiplied with, for a tree of clip children -/
+def clipFactorTree (nestedOver : Bool) (nested : Rat) (children : List ClipNode) : Rat :=
+  nested * (1 - drawClearList nestedOver children 1)
+
+/-- a flat step as a tree node -/
+def ClipStep.toNode : ClipStep → ClipNode
+  | .plain c => .plain c
+  | .clippedGroup s f => .group (some f) [.plain s]
+
 /-- coverage of several shapes drawn source-over onto a cleared buffer -/
 def overAll (cs : List Rat) : Rat := 1 - cs.foldl (fun acc c => acc * (1 - c)) 1
 
